@@ -334,6 +334,70 @@ func c15WireOn(w *W, trans []string) {
 			w.Probe("mangos-to-codec")
 		}
 	}
+	// ---- both directions at once (PAIR: no protocol state, both reliable):
+	// the frames of one direction must not disturb the framing of the other
+	if (kind == "pair" || kind == "xpair") && !w.Failed() {
+		_ = s.SetOption(mangos.OptionRecvDeadline, 20*dl)
+		_ = s.SetOption(mangos.OptionSendDeadline, 20*dl)
+		const nd = 12
+		inB, outB := make([][]byte, nd), make([][]byte, nd)
+		for i := range inB {
+			inB[i] = wireBody([]int{5, 0, 1, 40, 300}[w.Choose(simrt.SProg, 5)], 1000+i)
+			outB[i] = wireBody([]int{300, 7, 0, 64, 2000}[w.Choose(simrt.SProg, 5)], 2000+i)
+		}
+		pw := w.Do("peer writes", func() (interface{}, error) {
+			for _, b := range inB {
+				if _, err := pc.Write(wcFrame(ipc, b)); err != nil {
+					return nil, err
+				}
+			}
+			return nil, nil
+		})
+		ms := w.Do("mangos sends", func() (interface{}, error) {
+			for _, b := range outB {
+				if err := s.Send(b); err != nil {
+					return nil, err
+				}
+			}
+			return nil, nil
+		})
+		pr := w.Do("peer reads", func() (interface{}, error) {
+			for i, b := range outB {
+				p, err := wcReadFrame(pc, ipc, 1<<24)
+				if err != nil {
+					return nil, fmt.Errorf("frame %d from mangos is not parsable: %v", i, err)
+				}
+				if !bytes.Equal(p, b) {
+					return nil, fmt.Errorf("frame %d from mangos carries %d bytes (starts % x), the application sent %d bytes", i, len(p), clip(p), len(b))
+				}
+			}
+			return nil, nil
+		})
+		mr := w.Do("mangos receives", func() (interface{}, error) {
+			for i, b := range inB {
+				got, err := s.Recv()
+				if err != nil {
+					return nil, fmt.Errorf("message %d from the codec: Recv returned %v", i, err)
+				}
+				if !bytes.Equal(got, b) {
+					return nil, fmt.Errorf("message %d from the codec was written with %d bytes and delivered with %d", i, len(b), len(got))
+				}
+			}
+			return nil, nil
+		})
+		for _, c := range []*Call{pw, ms, pr, mr} {
+			if !c.Wait(10 * wt) {
+				w.Failf("C15/duplex-stuck:"+kind, "%s over %s, frames in both directions at once: %s has not finished", kind, tran, c.Label)
+				return
+			}
+			if c.Err != nil {
+				w.Failf("C15/duplex-framing:"+kind, "%s over %s, frames in both directions at once: %s: %v", kind, tran, c.Label, c.Err)
+				return
+			}
+		}
+		w.Probe("full-duplex-framing")
+		w.Delivery += 2 * nd
+	}
 }
 
 func firstDiff(a, b []byte) int {
@@ -493,6 +557,20 @@ func c15WS(w *W) {
 	var ws *websocket.Conn
 	if role == "listen" {
 		l, err := s.NewListener("ws://"+loopIP+":0/sp", nil)
+		if err == nil {
+			// listener options an application may set before listening: none
+			// of them changes the mapping
+			switch w.Choose(simrt.SShape, 4) {
+			case 1:
+				err = l.SetOption("WEBSOCKET-CHECKORIGIN", true)
+				w.SetShape("check_origin", true)
+			case 2:
+				err = l.SetOption("WEBSOCKET-CHECKORIGIN", false)
+				w.SetShape("check_origin", false)
+			case 3:
+				err = l.SetOption(mangos.OptionMaxRecvSize, 1<<20)
+			}
+		}
 		if err != nil || l.Listen() != nil {
 			w.Failf("HARNESS/listen", "ws listen: %v", err)
 			return
@@ -509,6 +587,11 @@ func c15WS(w *W) {
 		c, _, err := good.Dial(url, nil)
 		if err != nil {
 			w.Failf("C15/ws-conforming-client-refused", "%s listener refused a client offering %s.sp.nanomsg.org: %v", kind, info.SelfName, err)
+			return
+		}
+		if sel := c.Subprotocol(); sel != info.SelfName+".sp.nanomsg.org" {
+			c.Close()
+			w.Failf("C15/ws-subprotocol-not-selected:"+kind, "%s listener answered the upgrade selecting sub-protocol %q; the mapping requires it to select %q (a client that checks the answer drops the connection)", kind, sel, info.SelfName+".sp.nanomsg.org")
 			return
 		}
 		ws = c
